@@ -225,6 +225,13 @@ func (e *SpecEnv) lookupIdent(name string) (Val, bool) {
 				return e.fr.vals[fv], true
 			}
 		}
+		if e.st == e.fr.entry && e.st != nil {
+			// evaluation in the entry state (old(...)): a parameter denotes its entry value even
+			// when it lives in a memory cell that the function body fills in later
+			if v, ok := e.fr.params[name]; ok {
+				return v, true
+			}
+		}
 		if v, ok := e.fr.lookupDebug(name, e.st); ok {
 			return v, true
 		}
@@ -756,6 +763,13 @@ func (e *SpecEnv) trTypeSide(x Expr) string {
 	}
 	te := exprToType(x)
 	if te == nil {
+		// not a type expression: an Int-valued term holding a type tag (e.g. a spec function result)
+		if _, isCall := x.(*ECall); isCall {
+			v := e.tr(x)
+			if v.Ty == tInt {
+				return v.T
+			}
+		}
 		e.errorf("expected a type: %s", x)
 		return "0"
 	}
@@ -1309,6 +1323,21 @@ func (e *SpecEnv) modItems(m Expr) []modItem {
 				}
 			}
 			e.errorf("modifies ghost(x, \"name\"): bad arguments")
+			return nil
+		}
+		if id, ok := call.Fun.(*EIdent); ok && id.Name == "each" && len(call.Args) == 1 {
+			// each(x): x is a slice of slices; the backing arrays of all members x[a], 0 <= a < len(x)
+			v := e.tr(call.Args[0])
+			if v.Ty != nil {
+				if outer, ok := v.Ty.Underlying().(*types.Slice); ok {
+					if inner, ok := outer.Elem().Underlying().(*types.Slice); ok {
+						hdr := c.rd(e.heapOf(c.hk(outer.Elem())), c.acc("sobj", v.T), "(+ "+c.acc("soff", v.T)+" a!each)")
+						set := fmt.Sprintf("(exists ((a!each Int)) (and (<= 0 a!each) (< a!each %s) (> %s 0) (= o %s)))", c.acc("slen", v.T), c.acc("scap", hdr), c.acc("sobj", hdr))
+						return []modItem{{sortKey: c.hk(inner.Elem()), objSet: set}}
+					}
+				}
+			}
+			e.errorf("each(%s): not a slice of slices", call.Args[0])
 			return nil
 		}
 		if id, ok := call.Fun.(*EIdent); ok && id.Name == "pointee" && len(call.Args) == 1 {
